@@ -73,6 +73,8 @@ check('C12',
       '(bit-identical data); over C, every n >= 1: the residual shift zero-fills only the cropped last sample and sample k of a tone is the '
       'band-limited continuation of that tone at t + k, the map being linear (C12_value_tone, C12_not_zeroed). PARTIAL: scipy.fft = that DFT '
       'and rounding: fractional snippets are checked numerically against an independent O(N^2) longdouble interpolant (1e-5 max|x|).',
+      'The decisions and arithmetic of the model (length check, out-of-bounds test, fractional-start test, shift = i - t, new start, final '
+      'slice) are REGENERATED from transforms.snippet by translator T6 on every run; C12_generated proves the model equal to them. '
       'Trusted: Coq kernel + stdlib real-number axioms for the value theorem; scipy.fft = mathematical DFT (validated numerically each run); astropy Time/Quantity within tolerance. Known '
       'finding D12 (boundary requests given as Time/Quantity may raise) is listed in known_findings.json.',
       'machine-checked proof in Coq (Q; values over R/C) + correspondence run + numerical oracle for values',
@@ -88,20 +90,24 @@ check('C05',
       'of the input times the transfer function, a tone is multiplied by the transfer function at its own frequency, the map is linear, '
       'two passes compose to the summed DM and DM then -DM (uncropped) returns every sample (C05_spectrum/tone/linear/compose/'
       'roundtrip_uncropped). PARTIAL: scipy.fft = that DFT and the CROPPED two-pass round trip are checked numerically (independent complex128 filter with the '
-      'phase computed exactly and reduced mod 1; round trip within the sampled filter\'s leakage).',
+      'phase computed exactly and reduced mod 1; round trip within the sampled filter\'s leakage). The chirp phase (in cycles, with the '
+      'sign of the exponent), the delay in samples, which band edge feeds which delay and the crop start/stop are REGENERATED from '
+      'dedispersion.py by translator T5 (unit algebra) on every run; C05_generated_phase/_delay/_crop prove the model equal to them.',
       'Trusted: Coq kernel + stdlib real-number axioms (sig_forall_dec, sig_not_dec, functional_extensionality_dep, classic) for the R '
-      'part; T2; scipy.fft/libm/astropy validated numerically; chirp tolerance 1.2e-7 + 8 pi 2^-50 |phase|.',
-      'machine-checked proof in Coq (Q and R) + correspondence run (exact phase/crop) + numerical oracle',
+      'part; T2, T5; scipy.fft/libm/astropy validated numerically; chirp tolerance 1.2e-7 + 8 pi 2^-50 |phase|.',
+      'machine-checked proof in Coq (Q and R) with phase / crop arithmetic regenerated from source (T5) + correspondence run (exact phase/crop) + numerical oracle',
       'DESIGN.md 5 C05')
 check('C06',
       'Coq theorems (Props/C06.v, axiom-free, over Q): the f^-2 law with K = 1/2.41e-4 from the GENERATED literal, antisymmetry, '
       'additivity along chains, sample_delay = delay*rate, round = nearest (half to even, monotone); for the incoherent model (rounded '
       'delays, crop_before, per-channel CPython slices, stack, new start): every returned sample (k,i) has source k+d\'_i inside the '
       'input, out[T,i] = in[T + d_i/rate, i] in absolute time, None start stays None; the needed monotonicity premise is proved for the '
-      'delays of every band with positive labels and either sign of DM.',
-      'Trusted: Coq kernel, T2, np.round = half-to-even, np.stack of unequal lengths raises; astropy unit arithmetic within 1e-13; cases '
+      'delays of every band with positive labels and either sign of DM. The delay formula (seconds and samples, through a unit algebra) '
+      'and the integer bookkeeping of incoherent_dedispersion are REGENERATED from dedispersion.py by translator T5 on every run; '
+      'C06_generated_delay / C06_generated_incoherent prove the model equal to them.',
+      'Trusted: Coq kernel, T2, T5, np.round = half-to-even, np.stack of unequal lengths raises; astropy unit arithmetic within 1e-13; cases '
       'within float noise of a rounding tie are regenerated.',
-      'machine-checked proof in Coq (Q) with generated constant + correspondence run + source tracing monitor',
+      'machine-checked proof in Coq (Q) with constant (T2) and delay / crop arithmetic (T5) regenerated from source + correspondence run + source tracing monitor',
       'DESIGN.md 5 C06')
 
 check('C13',
@@ -142,11 +148,13 @@ check('C03',
       'DFT algebra of Lib/Dft.v): a whole-sample shift returns x(m-s) where 0 <= m-s < n and 0 elsewhere - never a wrapped sample; '
       '|s| >= n gives zero; for any ramp (fractional shifts) a tone at bin k0 is multiplied by the ramp value at k0. PARTIAL: the '
       'fractional-shift values of arbitrary data are compared numerically with an independent O(N^2) longdouble oracle and with the '
-      'binary64 instance of the same Gallina term (scipy.fft = DFT is an assumption).',
-      'Trusted: Coq kernel, stdlib real-number axioms for the value theorems, kernel floats for the executing instance; numpy broadcasting/'
+      'binary64 instance of the same Gallina term (scipy.fft = DFT is an assumption). The per-element logic of the zero-fill loop, the '
+      'start/stop accumulation, the crop window and the sign of the phase ramp are REGENERATED from transforms.time_shift by translator T6 '
+      'on every run (every other statement of the function pinned as a syntax tree); C03_generated_* prove the model equal to them.',
+      'Trusted: Coq kernel, translator T6, stdlib real-number axioms for the value theorems, kernel floats for the executing instance; numpy broadcasting/'
       'nditer order as transcribed; scipy.fft = DFT validated numerically each run; all-|s| <= 1e-8 shift arrays are returned unchanged '
       'by design (np.allclose early exit) and are outside the zero clause.',
-      'machine-checked proof in Coq (Z/Q index logic, C values) + exact zero-mask correspondence (vm_compute) + numerical oracle',
+      'machine-checked proof in Coq (Z/Q index logic regenerated from source by T6, C values) + exact zero-mask correspondence (vm_compute) + numerical oracle',
       'DESIGN.md 5 C03')
 check('C04',
       'Coq theorems (Props/C04.v): the bins zeroed for an element shifted by a bins are exactly the fftshift-ordered bins j whose source '
@@ -154,10 +162,12 @@ check('C04',
       'axiom-free); over the complex numbers, every n >= 1: mixing with exp(2 pi i b m/n) is the circular move of the DFT (modulation '
       'theorem) and, after the zero fill, fftshift-ordered bin j holds the input\'s bin j - b or 0 when that is outside the band; '
       '|b| >= n gives an all-zero spectrum. PARTIAL: fractional-bin shifts of arbitrary data, dtype and metadata preservation are decided '
-      'by the correspondence run (binary64 instance of the same Gallina term, exact zero-bin table) and an independent longdouble oracle.',
-      'Trusted: Coq kernel, stdlib real-number axioms, kernel floats; numpy fftshift/broadcasting as transcribed; scipy.fft = DFT validated '
+      'by the correspondence run (binary64 instance of the same Gallina term, exact zero-bin table) and an independent longdouble oracle. '
+      'The per-element logic of the zero-fill loop and the sign of the mixing ramp are REGENERATED from transforms.freq_shift by translator '
+      'T6 on every run (every other statement pinned); C04_generated_* prove the model equal to them.',
+      'Trusted: Coq kernel, translator T6, stdlib real-number axioms, kernel floats; numpy fftshift/broadcasting as transcribed; scipy.fft = DFT validated '
       'numerically; a requested shift within 1e-9 of a whole bin leaves the boundary bin unconstrained (property text).',
-      'machine-checked proof in Coq (Z/Q index logic, C values) + exact zero-bin correspondence (vm_compute) + numerical oracle',
+      'machine-checked proof in Coq (Z/Q index logic regenerated from source by T6, C values) + exact zero-bin correspondence (vm_compute) + numerical oracle',
       'DESIGN.md 5 C04')
 
 check('C14',
@@ -196,6 +206,9 @@ check('C07',
       'trig-on-fraction and "never decays to a single double" for each operand kind are decided by '
       'the correspondence run (every case evaluated by vm_compute on the model and compared BIT FOR BIT with the implementation) and by the '
       'exact-rational monitor (|result - exact| <= 2^-52, normalised, type Phase) on every run.',
+      'day_frac (statement by statement over primitive floats), the real/imaginary bookkeeping of Phase.from_angles and the arguments the '
+      'add, subtract, multiply, divide, negative, positive, absolute and comparison branches of Phase.__array_ufunc__ hand on are REGENERATED '
+      'from pulsar/phase.py by translator T7 on every run; C07_generated_* prove the model equal to them. '
       'Trusted: Coq kernel, stdlib FloatAxioms (kernel binary64 = IEEE 754), stdlib Uint63 axioms (of_Z_spec, for decoding / encoding doubles) + real-number axioms through Flocq; astropy two_sum / '
       'two_product / split as transcribed (bit-exact on every case); np.floor = floor; the C floor_divide of numpy / fmod = the model np_divmod (bit-exact comparison on every run; the model is proved to be the exact floor). Known finding D21 (Phase divisor in //, %, divmod '
       'raises RecursionError). Bare-number divisors of // and % raise by astropy unit convention (not sampled).',
